@@ -73,6 +73,8 @@ pub enum Stmt {
     Break,
     Continue,
     Return(Option<Box<Stmt>>),
+    /// `import "<dir>/<name>"`: the file holds the printed body; yields a struct of its top-level names
+    Import(String, Vec<Stmt>),
 }
 
 const L_ASSIGN: u8 = 0;
@@ -297,6 +299,7 @@ impl Printer {
             Stmt::For(n, it, b) => format!("for {n} in {} {}", self.head(it), self.body(b)),
             Stmt::Break => "break".into(),
             Stmt::Continue => "continue".into(),
+            Stmt::Import(name, _) => format!("import \"@DIR@/{name}\""),
             Stmt::Return(None) => "return".into(),
             Stmt::Return(Some(v)) => format!("return {}", self.stmt(v)),
         }
@@ -414,6 +417,54 @@ pub fn walk_stmt(s: &Stmt, f: &mut dyn FnMut(&Expr)) {
             walk_stmt(b, f);
         }
         Stmt::Return(Some(v)) => walk_stmt(v, f),
+        Stmt::Import(_, b) => b.iter().for_each(|s| walk_stmt(s, f)),
         _ => {}
+    }
+}
+
+/// (file name, body) of every import statement of the program
+pub fn collect_imports(body: &[Stmt], out: &mut Vec<(String, Vec<Stmt>)>) {
+    fn in_expr(e: &Expr, out: &mut Vec<(String, Vec<Stmt>)>) {
+        match e {
+            Expr::Lambda(_, _, b) | Expr::Module(b) => collect_imports(b, out),
+            _ => {}
+        }
+    }
+    for s in body {
+        match s {
+            Stmt::Import(n, b) => {
+                out.push((n.clone(), b.clone()));
+                collect_imports(b, out);
+            }
+            Stmt::Let(_, v) | Stmt::Destruct(_, v) => collect_imports(std::slice::from_ref(v), out),
+            Stmt::FnDecl(_, _, _, b) | Stmt::Block(b) => collect_imports(b, out),
+            Stmt::If(_, t, e) => {
+                collect_imports(std::slice::from_ref(t), out);
+                if let Some(e) = e {
+                    collect_imports(std::slice::from_ref(e), out);
+                }
+            }
+            Stmt::IfSet(_, _, _, a, b) => {
+                collect_imports(std::slice::from_ref(a), out);
+                if let Some(b) = b {
+                    collect_imports(std::slice::from_ref(b), out);
+                }
+            }
+            Stmt::Match(_, arms) => {
+                for arm in arms {
+                    match arm {
+                        Arm::Values(_, b) | Arm::Type(_, _, b) | Arm::Other(b) => collect_imports(std::slice::from_ref(b), out),
+                    }
+                }
+            }
+            Stmt::Loop(b) | Stmt::While(_, b) | Stmt::WhileSet(_, _, _, b) | Stmt::For(_, _, b) => collect_imports(std::slice::from_ref(b), out),
+            Stmt::Return(Some(v)) => collect_imports(std::slice::from_ref(v), out),
+            Stmt::Expr(e) => {
+                let mut found = vec![];
+                walk_expr(e, &mut |x| in_expr(x, &mut found));
+                out.append(&mut found);
+            }
+            _ => {}
+        }
     }
 }
